@@ -31,6 +31,63 @@ CLAIMED = {
         "of loaded signals is checked by the oracle (monitor) on every loaded waveform, its proof belongs to C04's load theorems. "
         "FST time chain and GHW section reader are exercised in C10/C11, not modelled here.",
    technique="Coq proof (invariant over op sequences) + correspondence via OCaml extraction"),
+
+ "C01": dict(
+   category="translation_validation",
+   text="Executable Gallina model of the whole VCD value path (parse_body byte state machine, VcdEncoder, id_to_int/IdLookup, "
+        "SignalEncoder::add_vcd_change, write_n_state, blocks, Reader::load_signal, get_value_at, n_state_to_bit_string) is run, "
+        "extracted to OCaml, against the real loader on the same files; independently the meaning computed from the abstract history "
+        "is compared with what the implementation reports. Exhaustive sweeps over every byte as value character and every "
+        "(width, written length, leading character). Theorems proved so far are listed in Properties/C01.v (codec round trip); "
+        "the end-to-end refinement theorem C01_faithful is not closed, hence the level.",
+   design_ref="DESIGN.md section 6, C01",
+   note="Trusted: Coq kernel, extraction (ExtrOcamlBasic), OCaml driver incl. float_of_string as f64 parser and identity as LZ4, Rust harness, generators and the Python oracle computed from the abstract history. ",
+   technique="correspondence: Coq model extracted to OCaml vs real code + oracle from abstract history; partial Coq proofs (pack/unpack)"),
+ "C03": dict(
+   category="translation_validation",
+   text="The Gallina model of determine_thread_chunks / read_values / parse_body's hand-over rule / Encoder::append is run against the "
+        "real multi-threaded loader (MIN_CHUNK_SIZE override hook, rayon pools of 1..16 threads) with a chunk boundary swept over every "
+        "byte alignment by blank padding; oracle: equals the single-threaded observation and the meaning of the history. The claim is "
+        "restricted to bodies satisfying the line discipline LD1-LD5; outside it the property is false on this code (7 known findings "
+        "with witnesses, re-confirmed on every run). handover_exact is not yet proved in Coq, hence the level.",
+   design_ref="DESIGN.md section 6, C03",
+   note="Trusted: Coq kernel, extraction (ExtrOcamlBasic), OCaml driver incl. float_of_string as f64 parser and identity as LZ4, Rust harness, generators and the Python oracle computed from the abstract history.  A-rayon: indexed collect preserves order; chunk closures are pure functions of shared immutable data.",
+   technique="correspondence: Coq model extracted to OCaml vs real code over exhaustive boundary alignments + oracle"),
+ "C04": dict(
+   category="translation_validation",
+   text="Histories are driven through the real wavemem::Encoder (hook) and through the extracted Gallina model of SignalEncoder, blocks, "
+        "meta-data words, Reader::load_signal and get_value_at; oracle: meaning of the history. Exhaustive over every ordered pair and "
+        "triple of state kinds x widths 1..40, both sides of the 32-byte compression threshold, several appended segments, the raw (GHW) "
+        "and text (VCD) write paths. Proved in Coq so far: pack_unpack (write_n_state / n_state_to_bit_string round trip for all widths "
+        "and kinds), time_table_spec; load_encode is not closed, hence the level.",
+   design_ref="DESIGN.md section 6, C04",
+   note="Trusted: Coq kernel, extraction (ExtrOcamlBasic), OCaml driver incl. float_of_string as f64 parser and identity as LZ4, Rust harness, generators and the Python oracle computed from the abstract history.  A-lz4: lz4_flex round trip.",
+   technique="correspondence: Coq model extracted to OCaml vs real code + oracle; partial Coq proofs"),
+ "C06": dict(
+   category="translation_validation",
+   text="Canonical-form monitor (no equal neighbours, exact width, minimal kind, Real/String kinds) on every signal loaded from VCD text, "
+        "through the Encoder hook (text, raw, real paths, appended segments) and through fst::SignalWriter (hook), on histories rich in "
+        "redundant writes and kind changes; plus model-vs-implementation correspondence and the meaning oracle.",
+   design_ref="DESIGN.md section 6, C06",
+   note="Trusted: Coq kernel, extraction (ExtrOcamlBasic), OCaml driver incl. float_of_string as f64 parser and identity as LZ4, Rust harness, generators and the Python oracle computed from the abstract history.  Slices are covered by C13.",
+   technique="correspondence: Coq model extracted to OCaml vs real code + canonical-form monitor"),
+ "C14": dict(
+   category="translation_validation",
+   text="Every generated VCD is loaded through 8 entry-point/mode combinations (mmap path single/multi-threaded, reader over Cursor and "
+        "BufReader<File>, two-phase header/body with and without progress counter, read_header_from_file with both multi_thread values); "
+        "all observations and body_len must agree with each other, with the model's three body drivers (reader: absolute stop position; "
+        "mmap single-thread: len-1; multi-thread) and with the meaning of the history.",
+   design_ref="DESIGN.md section 6, C14",
+   note="Trusted: Coq kernel, extraction (ExtrOcamlBasic), OCaml driver incl. float_of_string as f64 parser and identity as LZ4, Rust harness, generators and the Python oracle computed from the abstract history.  mmap, BufReader and ProgressTracker are I/O plumbing: exercised, not modelled.",
+   technique="correspondence: Coq model of the three body drivers extracted to OCaml vs real entry points + oracle"),
+ "C15": dict(
+   category="translation_validation",
+   text="Every truncation offset of generated VCD bodies is loaded (path, reader, multi-threaded) by the real code and by the extracted "
+        "model (panics, errors and results must coincide); oracle: never panic/hang outside the recorded class CutInsideChange (known "
+        "finding D9), prefix property of table and changes, exact restriction at line boundaries.",
+   design_ref="DESIGN.md section 6, C15",
+   note="Trusted: Coq kernel, extraction (ExtrOcamlBasic), OCaml driver incl. float_of_string as f64 parser and identity as LZ4, Rust harness, generators and the Python oracle computed from the abstract history. ",
+   technique="fault enumeration over all cut points; correspondence with the Coq model extracted to OCaml + prefix oracle"),
 }
 
 NOT_YET = {}
